@@ -5,6 +5,7 @@ Model: `P2/Model/Replay.lean` (+ `P2/Model/Heights.lean` for `compare` / `advanc
 All statements are for arbitrary persisted states / arbitrary histories (no bound on logs, rows, crashes).
 -/
 import P2.Model.Replay
+import P2.Extracted.C15
 
 namespace P2.C15
 open P2.Replay P2.Heights
@@ -197,14 +198,19 @@ theorem mem_entries (rows : List Row) (a : Nat) (rg : Range) (x : Row) :
 
 /-! ## The property -/
 
-/-- C15 (replay half): every stored row with a body whose seq is above the persisted cursor of its log (or whose
-    log has no cursor entry) is handed to the application by the replay — whatever the persisted state is, i.e.
-    wherever the crash happened. -/
+/-- C15 (replay half): every stored row with a body whose log is associated with the topic and whose seq is above
+    the persisted cursor of its log (or whose log has no cursor entry) is handed to the application by the replay —
+    whatever else the persisted state is. That the association is there after EVERY committed transaction of the
+    code is `c15_assoc_after_any_commit` below. -/
 theorem c15_replays_unacked (p : Persist) (r : Row) (hr : r ∈ p.rows) (hb : r.body = true)
+    (ha : r.author ∈ p.assoc)
     (hc : ∀ h, lookup r.author p.cursor = some h → h < r.seq) : r ∈ deliveredRows p := by
-  obtain ⟨hn, hall⟩ := heightsOf_spec p.rows
-  obtain ⟨m, hm, hle⟩ := hall r hr
-  have hmem : (r.author, m) ∈ heightsOf p.rows := mem_of_lookup _ _ _ hm
+  have hv : r ∈ visibleRows p := by
+    simp only [visibleRows, List.mem_filter, List.contains_iff_mem]
+    exact ⟨hr, ha⟩
+  obtain ⟨hn, hall⟩ := heightsOf_spec (visibleRows p)
+  obtain ⟨m, hm, hle⟩ := hall r hv
+  have hmem : (r.author, m) ∈ heightsOf (visibleRows p) := mem_of_lookup _ _ _ hm
   unfold deliveredRows nacked P2.Heights.compare
   rw [List.mem_flatMap]
   cases hcur : lookup r.author p.cursor with
@@ -262,8 +268,11 @@ theorem c15_skips_acked (p : Persist) (r : Row) (hd : r ∈ deliveredRows p) :
       exact hrange.1
     · contradiction
 
-/-- The ids version used by the correspondence check. -/
-theorem c15_delivered_ids (p : Persist) (i : Nat) :
+/-- Every stored row's log is associated with the topic (what one-transaction insert+associate maintains). -/
+def AssocInv (p : Persist) : Prop := ∀ r, r ∈ p.rows → r.author ∈ p.assoc
+
+/-- The ids version used by the correspondence check (for states the code can leave behind). -/
+theorem c15_delivered_ids (p : Persist) (hA : AssocInv p) (i : Nat) :
     i ∈ delivered p ↔ ∃ r, r ∈ p.rows ∧ r.id = i ∧ r.body = true ∧
       ∀ h, lookup r.author p.cursor = some h → h < r.seq := by
   unfold delivered
@@ -273,7 +282,7 @@ theorem c15_delivered_ids (p : Persist) (i : Nat) :
     obtain ⟨h1, h2, h3⟩ := c15_skips_acked p r hr
     exact ⟨r, h1, rfl, h2, h3⟩
   · rintro ⟨r, h1, rfl, h2, h3⟩
-    exact ⟨r, c15_replays_unacked p r h1 h2 h3, rfl⟩
+    exact ⟨r, c15_replays_unacked p r h1 h2 (hA r h1) h3, rfl⟩
 
 /-! ### crashes keep the persistent state; the cursor never goes back -/
 
@@ -304,6 +313,8 @@ theorem c15_step_persist (s : St) (o : Op) :
     (o = .crash → (step s o).p = s.p) := by
   cases o with
   | insert r => exact ⟨fun x hx => by simp [step, hx], fun k => optLe_refl _, fun h => by cases h⟩
+  | insertRow r => exact ⟨fun x hx => by simp [step, hx], fun k => optLe_refl _, fun h => by cases h⟩
+  | associate a => exact ⟨fun x hx => by simpa [step] using hx, fun k => optLe_refl _, fun h => by cases h⟩
   | process i => exact ⟨fun x hx => by simpa [step] using hx, fun k => optLe_refl _, fun h => by cases h⟩
   | ack a h => exact ⟨fun x hx => by simpa [step] using hx, cursorLe_advance _ _ _, fun h => by cases h⟩
   | crash => exact ⟨fun x hx => by simpa [step] using hx, fun k => optLe_refl _, fun _ => rfl⟩
@@ -320,23 +331,93 @@ theorem c15_cursor_persisted_monotone (ops : List Op) :
     obtain ⟨i1, i2⟩ := ih (step s o)
     exact ⟨fun r hr => i1 r (h1 r hr), fun k => optLe_trans (h2 k) (i2 k)⟩
 
-/-- The end-to-end reading: run any history (crashes anywhere), then re-open. A row committed during the history
-    is replayed unless an ack at or above its seq was persisted for its log; and whatever was acked is never
-    replayed. -/
-theorem c15_after_any_history (s : St) (ops : List Op) (r : Row) (hr : r ∈ s.p.rows) (hb : r.body = true) :
+/-- One committed transaction of the code (insert+associate together), a volatile step or a crash keeps
+    "every stored row's log is associated with the topic". -/
+theorem c15_assoc_step (s : St) (o : Op) (ho : o.atomic = true) (hA : AssocInv s.p) : AssocInv (step s o).p := by
+  cases o with
+  | insert r =>
+    intro x hx
+    simp only [step, List.mem_append, List.mem_singleton] at hx ⊢
+    rcases hx with hx | hx
+    · exact List.mem_cons_of_mem _ (hA x hx)
+    · subst hx; simp
+  | insertRow r => simp [Op.atomic] at ho
+  | associate a => simp [Op.atomic] at ho
+  | process i => intro x hx; exact hA x (by simpa [step] using hx)
+  | ack a h => intro x hx; exact hA x (by simpa [step] using hx)
+  | crash => intro x hx; exact hA x (by simpa [step] using hx)
+
+/-- C15 (crash after ANY committed transaction): along every history of the code's operations — i.e. at every
+    durable state, whichever commit the crash follows — every stored row's log is associated with the topic … -/
+theorem c15_assoc_after_any_commit (ops : List Op) (hat : ∀ o, o ∈ ops → o.atomic = true) :
+    ∀ s : St, AssocInv s.p → AssocInv (runOps s ops).p := by
+  induction ops with
+  | nil => intro s h; exact h
+  | cons o t ih =>
+    intro s h
+    exact ih (fun x hx => hat x (by simp [hx])) (step s o) (c15_assoc_step s o (hat o (by simp)) h)
+
+/-- … hence the end-to-end reading: run any history of the code's operations (crashes anywhere, after any commit),
+    then re-open. A row committed during the history is replayed iff no ack at or above its seq was persisted
+    for its log. -/
+theorem c15_after_any_history (s : St) (hA : AssocInv s.p) (ops : List Op)
+    (hat : ∀ o, o ∈ ops → o.atomic = true) (r : Row) (hr : r ∈ s.p.rows) (hb : r.body = true) :
     let p' := (runOps s ops).p
     (r ∈ deliveredRows p' ↔ ∀ h, lookup r.author p'.cursor = some h → h < r.seq) := by
   intro p'
   have hrows := (c15_cursor_persisted_monotone ops s).1 r hr
+  have hA' := c15_assoc_after_any_commit ops hat s hA
   constructor
   · intro hd; exact (c15_skips_acked p' r hd).2.2
-  · intro hc; exact c15_replays_unacked p' r hrows hb hc
+  · intro hc; exact c15_replays_unacked p' r hrows hb (hA' r hrows) hc
+
+/-! ### insert and association as TWO transactions lose the first operation of a log
+
+`insertRow` commits the operation, the crash comes before `associate`: the row is stored, has a body, was never
+acknowledged — and the replay does not see it. Under the automatic policy the loss is permanent: the next publish
+(which finds nothing to repair, associates the log and is acked) moves the cursor past it. -/
+
+def emptySt : St := { p := { rows := [], cursor := [], assoc := [] }, inPipeline := [], handed := [] }
+
+theorem c15_split_loses_first_publish :
+    let s := runOps emptySt [.insertRow ⟨0, 0, true, 10⟩, .crash]
+    (⟨0, 0, true, 10⟩ : Row) ∈ s.p.rows ∧ lookup 0 s.p.cursor = none ∧ delivered s.p = [] := by decide
+
+theorem c15_split_loss_is_permanent :
+    let s := runOps emptySt [.insertRow ⟨0, 0, true, 10⟩, .crash,
+      .insertRow ⟨0, 1, true, 11⟩, .associate 0, .process 11, .ack 0 1, .crash]
+    (⟨0, 0, true, 10⟩ : Row) ∈ s.p.rows ∧ delivered s.p = [] ∧ s.handed = [] := by decide
+
+/-- The full statement ("stored, body, above the cursor ⇒ replayed") is false for the split variant … -/
+theorem c15_split_violates :
+    ¬ (∀ (ops : List Op) (r : Row), let p := (runOps emptySt ops).p
+        r ∈ p.rows → r.body = true → (∀ h, lookup r.author p.cursor = some h → h < r.seq) → r ∈ deliveredRows p) := by
+  intro h
+  have := h [.insertRow ⟨0, 0, true, 10⟩, .crash] ⟨0, 0, true, 10⟩ (by decide) rfl (by decide)
+  revert this
+  decide
+
+/-- … and true for the code's operations (one transaction). -/
+theorem c15_atomic_holds (ops : List Op) (hat : ∀ o, o ∈ ops → o.atomic = true) (r : Row) :
+    let p := (runOps emptySt ops).p
+    r ∈ p.rows → r.body = true → (∀ h, lookup r.author p.cursor = some h → h < r.seq) → r ∈ deliveredRows p := by
+  intro p hr hb hc
+  have hA : AssocInv p := c15_assoc_after_any_commit ops hat emptySt (by intro x hx; simp [emptySt] at hx)
+  exact c15_replays_unacked p r hr hb (hA r hr) hc
+
+/-! ### … and the source really commits both in one transaction
+
+`forgeAssociateInInsertTx` is re-extracted from p2panda/src/forge.rs on every run: inside the ONE
+`tx!(self.store, { … })` block of `create_operation` the topic association is followed by `insert_operation`
+(the extraction fails if either call lies outside that block). -/
+theorem c15_insert_and_associate_one_transaction_in_source :
+    P2.Extracted.C15.forgeAssociateInInsertTx = "::associate(" := rfl
 
 /-! ## Non-vacuity -/
 
 /-- publish 1, publish 2 (acked), publish 3, crash before its ack, import of a body-less op by author 1: -/
 example :
-    let s0 : St := { p := { rows := [], cursor := [] }, inPipeline := [], handed := [] }
+    let s0 : St := { p := { rows := [], cursor := [], assoc := [] }, inPipeline := [], handed := [] }
     let ops : List Op := [.insert ⟨0, 0, true, 10⟩, .process 10, .insert ⟨0, 1, true, 11⟩, .process 11, .ack 0 1,
       .insert ⟨0, 2, true, 12⟩, .insert ⟨1, 0, false, 13⟩, .crash]
     delivered (runOps s0 ops).p = [12] ∧ (runOps s0 ops).inPipeline = [] ∧
